@@ -69,7 +69,7 @@ pub fn seeds(with_fixtures: bool) -> Vec<Seed> {
         book.xfs = vec![0, 14, 164];
         book.custom_fmts = vec![(164, "[h]:mm".into())];
         let body = vec![xlsb::row_hdr(0, 0, 3), xlsb::cell_record(0, 0, &xlsb::CellVal::Isst(1), &xlsb::PTG_INT_1), xlsb::cell_record(1, 1, &xlsb::CellVal::Real(44000.5), &xlsb::PTG_INT_1),
-                        xlsb::cell_record(2, 0, &xlsb::CellVal::Rk(xlsb::rk_int(7, false)), &xlsb::PTG_INT_1), xlsb::cell_record(3, 2, &xlsb::CellVal::FmlaNum(2.0), &xlsb::PTG_INT_1),
+                        xlsb::cell_record(2, 0, &xlsb::CellVal::Rk(xlsb::rk_int(7, false)), &xlsb::PTG_INT_1), xlsb::cell_record(3, 2, &xlsb::CellVal::FmlaNum(2.0), &[0x1E, 1, 0, 0x1E, 2, 0, 0x22, 2, 4, 0, 0x17, 2, 0, b'a', 0, b'b', 0, 0x08]),
                         xlsb::row_hdr(2, 0, 1), xlsb::cell_record(0, 0, &xlsb::CellVal::St("inline".into()), &xlsb::PTG_INT_1), xlsb::cell_record(1, 0, &xlsb::CellVal::FmlaString("fs".into()), &xlsb::PTG_INT_1)];
         let pre = xlsb::Preamble { ws_prop: true, views: true, fmt_info: true, col_infos: 1 };
         book.sheets.push(xlsb::XlsbSheet { name: "S1".into(), state: 0, stream: xlsb::sheet_stream(&pre, (0, 2, 0, 3), &body) });
@@ -92,6 +92,10 @@ pub fn seeds(with_fixtures: bool) -> Vec<Seed> {
             biff::Rec::MulRk { r: 1, c0: 0, items: vec![(0, xlsb::rk_int(1, false)), (0, xlsb::rk_int(250, true))] },
             biff::Rec::Formula { r: 2, c: 0, xf: 0, res: biff::FRes::Str, shared: false }, biff::Rec::StringRec { s: biff::XlStr::new("fs") },
             biff::Rec::Formula { r: 2, c: 1, xf: 0, res: biff::FRes::Num(3.0), shared: false },
+            // SUM(1,2)  |  SIN(A1)&"ab"  |  SUM(A1:B2)*2
+            biff::Rec::FormulaRgce { r: 2, c: 2, xf: 0, res: biff::FRes::Num(3.0), rgce: vec![0x1E, 1, 0, 0x1E, 2, 0, 0x22, 2, 4, 0] },
+            biff::Rec::FormulaRgce { r: 2, c: 3, xf: 0, res: biff::FRes::Num(0.0), rgce: vec![0x44, 0, 0, 0, 0xC0, 0x21, 15, 0, 0x17, 2, 0, b'a', b'b', 0x08] },
+            biff::Rec::FormulaRgce { r: 3, c: 1, xf: 0, res: biff::FRes::Num(0.0), rgce: vec![0x25, 0, 0, 1, 0, 0, 0xC0, 1, 0xC0, 0x22, 1, 4, 0, 0x1E, 2, 0, 0x05] },
             biff::Rec::BoolErr { r: 3, c: 0, xf: 0, v: 7, is_err: true }, biff::Rec::DbCell ] });
         wb.sheets.push(biff::Sheet { name: biff::XlStr::with_storage("数据", true), dims: None, recs: vec![biff::Rec::Number { r: 0, c: 0, xf: 2, v: 44000.0 }] });
         out.push(Seed { name: "xls_rich".into(), fmt: "xls".into(), body: Body::Cfb(vec![("Workbook".into(), biff::workbook_stream(&wb))]) });
@@ -285,6 +289,13 @@ fn scan_biff(part: &str, b: &[u8], out: &mut Vec<Field>) {
         for o in (0..pl.min(16)).step_by(4) {
             if o + 4 <= pl { out.push(Field { part: part.into(), off: pos + 4 + o, width: 4, kind: "num", desc: format!("rec{:04X}@{}w4", rt, o) }); }
         }
+        // records that carry a parsed expression (FORMULA, NAME, SHRFMLA, ARRAY): every byte of its first 40 --
+        // token ids, argument counts, function indices, string lengths, extern-sheet indices
+        if [0x0006u16, 0x0018, 0x04BC, 0x0221].contains(&rt) {
+            for o in 14..pl.min(62) {
+                out.push(Field { part: part.into(), off: pos + 4 + o, width: 1, kind: "num", desc: format!("rec{:04X}@{}b1", rt, o) });
+            }
+        }
         pos += 4 + len;
         nrec += 1;
     }
@@ -320,6 +331,12 @@ fn scan_xlsb(part: &str, b: &[u8], out: &mut Vec<Field>) {
         }
         for o in (0..pl.min(8)).step_by(2) {
             if o + 2 <= pl { out.push(Field { part: part.into(), off: pos + o, width: 2, kind: "num", desc: format!("brt{:04X}@{}w2", rt, o) }); }
+        }
+        // BrtFmlaString / Num / Bool / Error and BrtName: the bytes of the parsed expression
+        if [0x0008u16, 0x0009, 0x000A, 0x000B, 0x0027].contains(&rt) {
+            for o in 8..pl.min(56) {
+                out.push(Field { part: part.into(), off: pos + o, width: 1, kind: "num", desc: format!("brt{:04X}@{}b1", rt, o) });
+            }
         }
         pos += len;
         nrec += 1;
